@@ -410,7 +410,9 @@ def check(ctx, modules=None, rule_id=RULE):
     ctx.rule(rule_id, 'no iteration over a hash-ordered collection (set, '
              'frozenset, SpecifierSet, set-valued registries) reaches a '
              'consumer that can observe the order, unless sorted with an '
-             'injective key or allow-listed with a reason')
+             'injective key or allow-listed with a reason (reaching '
+             'definitions; dict-view set algebra; a stable sort with a key '
+             'that can tie keeps the hash order of the tied elements)')
     from ..facts import Facts
     F = getattr(ctx, '_facts', None)
     if F is None:
